@@ -15,10 +15,10 @@ package p2psender
 //@ func (*Sender).Send
 //@   property C10
 //@   requires s != nil && s.topic != nil && ctx != nil
-//@   at call MarshalCBOR#1: assert msg.ExtraData == ite(len(s.extraData) != 0, s.extraData, old(msg.ExtraData)) && payload(arg1) == buf
-//@   at call Bytes#1: assert arg0 == buf
+//@   at call MarshalCBOR: assert msg.ExtraData == ite(len(s.extraData) != 0, s.extraData, old(msg.ExtraData)) && payload(arg1) == buf
+//@   at call Bytes: assert arg0 == buf
 //@   ghost wire := zero("[]byte")
-//@   at call Bytes#1: after ghost wire := result
-//@   at call Publish#1: assert arg0 == s.topic && arg2 == wire
+//@   at call Bytes: after ghost wire := result
+//@   at call Publish: assert arg0 == s.topic && arg2 == wire
 //@   ensures-local count("call:MarshalCBOR") == 1 && count("call:Publish") <= 1 && before("call:MarshalCBOR", "call:Publish")
 //@   ensures-local result == nil ==> count("call:Publish") == 1
